@@ -95,4 +95,11 @@ REGISTRY = {
         "simplify_local_clifford on all 24x24 concatenations and all words <= 4 (6); non-Clifford rejected; every wrapper "
         "on either register type compiled by both backends on a Bell pair (Choi state) follows last-listed-acts-first.",
         "", "DESIGN.md 6/C20"),
+    "C10": (
+        "real AlternateTargetSolver results given to TLC: each circuit executed by the spec over every outcome branch "
+        "against the relabelled target; listed graphs checked against the complementation-fixpoint orbit",
+        "Connected targets n <= 4 (5, sampled 6 thorough) x settings grid (n_iso, n_lc, all LC-orbit methods, seeds) and "
+        "the default constructor; returned list and solver.result: Generates(Relabel(target, map)) in all branches, "
+        "EmissionShape, MapIsPerm, ListedLC, NoDuplicateGraphs.",
+        "", "DESIGN.md 6/C10"),
 }
